@@ -263,21 +263,26 @@ Record strto := mkStrto {
   st_val : N            (* returned value, already in [0, 2^64) *)
 }.
 
+Definition strip_sign (s : str) : bool * str * N :=
+  match s with
+  | c :: r => if c =? 45 then (true, r, 1) else if c =? 43 then (false, r, 1) else (false, s, 0)
+  | [] => (false, s, 0)
+  end.
+
+Definition is_some {A} (o : option A) : bool := match o with Some _ => true | None => false end.
+
+Definition strip_prefix (base : N) (s : str) : str * N :=
+  match s with
+  | c0 :: cx :: c :: r =>
+      if (base =? 16) && ((c0 =? 48) && (ch_in cx 120 88 && is_some (digit_in 16 c)))
+      then (c :: r, 2) else (s, 0)
+  | _ => (s, 0)
+  end.
+
 Definition strtoull (base : N) (s : str) : strto :=
   let '(s1, nws) := skip_ws s 0 in
-  let '(neg, s2, nsg) :=
-    match s1 with
-    | c :: r => if c =? 45 then (true, r, 1) else if c =? 43 then (false, r, 1) else (false, s1, 0)
-    | [] => (false, s1, 0)
-    end in
-  let '(s3, npre) :=
-    match s2 with
-    | c0 :: cx :: c :: r =>
-        if (base =? 16) && (c0 =? 48) && ch_in cx 120 88 &&
-           match digit_in 16 c with Some _ => true | None => false end
-        then (c :: r, 2) else (s2, 0)
-    | _ => (s2, 0)
-    end in
+  let '(neg, s2, nsg) := strip_sign s1 in
+  let '(s3, npre) := strip_prefix base s2 in
   let '(mag, nd) := digits_acc base s3 0 0 in
   if nd =? 0 then mkStrto 0 false 0
   else if TWO64 <=? mag then mkStrto (nws + nsg + npre + nd) true (TWO64 - 1)
@@ -500,6 +505,12 @@ Definition to_big (signed : bool) (s : str) : res :=
       | [] => out (st_val r)
       | rest => if is_valid_suffix true rest then out (st_val r) else RErr 3
       end.
+
+(* which branch of toBigNumber/toBigUNumber handles the string (the order of the tests in the code) *)
+Inductive branch := BrHex | BrOct | BrBin | BrFloat | BrChar | BrDec.
+Definition branch_of (s : str) : branch :=
+  if is_int_hex s then BrHex else if is_oct s then BrOct else if is_bin s then BrBin
+  else if is_float s then BrFloat else if is_char_literal s then BrChar else BrDec.
 
 Definition to_bigunumber (s : str) : res := to_big false s.
 Definition to_bignumber (s : str) : res := to_big true s.
